@@ -65,6 +65,7 @@ func runC08(c *Ctx) {
 	// "bins without statistics" refusal is exactly count == 0 && !empty (a cut between blocks stays a success)
 	c.shared(func() { c10Decode(c, a) }, func(o *Obligation) bool { return true })
 	c08ExactOrder(c, a)
+	c08LoopExit(c, a)
 }
 
 // moduleErrCallee: the callee (static or interface method) is declared in the module and returns an error.
@@ -374,6 +375,55 @@ func c08EOFBeforeConsume(c *Ctx, a *sketchAnchors) {
 		c.R.check(bad == "", rule, key, shortFn(f), c.fpos(f), "every path returning io.EOF has not stored to *b nor called anything state-changing", firstNonEmpty(bad, fmt.Sprintf("%d EOF path(s)", nEOF)))
 	}
 	c.R.floor(rule, "leaf/composite decoders examined", n, 7)
+	// the plain decoder skips the exact-statistics payloads it does not keep: a skip of K bytes happens on a path that
+	// has established len(*b) ≥ K with the same K, io.EOF is returned exactly when len(*b) < K, and K is 8 — the
+	// size of the float64LE payload of the Sum / Min / Max blocks (C07 grammar)
+	if dm := c.P.DeclaredMethod(a.DDSketch, "DecodeAndMergeWith"); dm != nil {
+		for _, cl := range dm.AnonFuncs {
+			paths, _ := exec(c, cl, nil, 1)
+			nSkip := 0
+			bad := ""
+			lenBound := func(p *Path) (k string, short bool, ok bool) {
+				for _, cd := range p.Conds {
+					t := cd.Term
+					isLen := func(l *Term) bool {
+						l = stripConv(l)
+						return l.Op == "builtin" && l.Sym == "len" && len(l.Args) == 1 && l.Args[0].unver().Op == "load" && l.Args[0].unver().Args[0].isParam(0)
+					}
+					if t.isBin("<") && t.Args[1].Op == "const" && isLen(t.Args[0]) { // len(*b) < K
+						return t.Args[1].Sym, cd.Taken, true
+					}
+					if t.isBin("<=") && t.Args[0].Op == "const" && isLen(t.Args[1]) { // K <= len(*b), i.e. len(*b) >= K
+						return t.Args[0].Sym, !cd.Taken, true
+					}
+				}
+				return "", false, false
+			}
+			for _, p := range paths {
+				var adv *Term
+				for _, e := range p.Effects {
+					if e.Kind == "store" && e.Addr.isParam(0) {
+						adv = e.Val
+					}
+				}
+				k, short, tested := lenBound(p)
+				switch {
+				case adv != nil && adv.Op == "slice" && len(adv.Args) == 3 && adv.Args[1].Op == "const":
+					nSkip++
+					if !tested || short || k != adv.Args[1].Sym || k != "8" {
+						bad = fmt.Sprintf("skips %s byte(s) on a path that established len(*b) ≥ %s (tested=%v): [%s]", adv.Args[1].Sym, k, tested && !short, p.String())
+					}
+				case tested && short:
+					if last := p.RetT[len(p.RetT)-1]; last.Key() != "global:io.EOF" || k != "8" {
+						bad = fmt.Sprintf("len(*b) < %s returns %s", k, last.Key())
+					}
+				case tested && !short && adv == nil:
+					bad = "enough input established but nothing skipped: [" + p.String() + "]"
+				}
+			}
+			c.R.check(bad == "" && nSkip > 0, rule, shortFn(cl)+"/skip-arms", shortFn(cl), c.fpos(cl), "skip of 8 bytes exactly when len(*b) ≥ 8, io.EOF exactly when len(*b) < 8", firstNonEmpty(bad, fmt.Sprintf("%d skipping path(s)", nSkip)))
+		}
+	}
 }
 
 // flagSel recognisers
@@ -546,6 +596,43 @@ func c08Refusals(c *Ctx, a *sketchAnchors) {
 					badC = "mapping mismatch does not return an error: " + describeRet(p)
 				}
 			}
+		}
+	}
+	// the refusal itself is reserved for a real mismatch: a path that ends in a fresh error right after consulting the
+	// receiver's mapping has seen Equals answer false (a receiver that merely HAS a mapping is not a mismatch)
+	for _, p := range paths {
+		if len(p.RetT) == 0 || p.RetNil(len(p.RetT)-1) != -1 {
+			continue
+		}
+		rt := p.RetT[len(p.RetT)-1]
+		if !(rt.Op == "call" && (strings.HasPrefix(rt.Sym, "errors.New") || strings.HasPrefix(rt.Sym, "fmt.Errorf"))) {
+			continue
+		}
+		lastSeq, sawEqualsFalse, aboutMapping := 0, false, false
+		for _, cd := range p.Conds {
+			if neq, k := isMapNil(cd.Term); k {
+				aboutMapping = neq == cd.Taken // "the receiver has a mapping"; the opposite is the missing-mapping refusal
+				lastSeq = cd.Seq
+			}
+			if isMethodCall(cd.Term, "Equals") && len(cd.Term.Args) == 2 && (isMapField(cd.Term.Args[0]) || isMapField(cd.Term.Args[1])) {
+				aboutMapping = true
+				lastSeq = cd.Seq
+				if !cd.Taken {
+					sawEqualsFalse = true
+				}
+			}
+		}
+		if !aboutMapping || lastSeq != p.Conds[len(p.Conds)-1].Seq {
+			continue // the error is decided by a later condition (e.g. the missing-mapping test at the end)
+		}
+		laterEffect := false
+		for _, e := range p.Effects {
+			if e.Seq > lastSeq && !(e.Kind == "call" && e.Pure) && !(e.Kind == "call" && e.Call == rt) {
+				laterEffect = true
+			}
+		}
+		if !laterEffect && !sawEqualsFalse {
+			badC = firstNonEmpty(badC, "a stream is refused right after the receiver's mapping was consulted although Equals did not answer false: ["+p.String()+"]")
 		}
 	}
 	c.R.check(badC == "" && nStore > 0 && nMismatch > 0, rule, shortFn(f)+"/mapping-mismatch", shortFn(f), c.fpos(f),
@@ -793,4 +880,78 @@ func c08ExactOrder(c *Ctx, a *sketchAnchors) {
 		}
 	}
 	c.R.check(bad == "" && nCount > 0, rule, shortFn(f)+"/count-block-first", shortFn(f), c.fpos(f), "every path encodes the inner sketch, and the Count block (when written) precedes it", firstNonEmpty(bad, fmt.Sprintf("%d path(s), %d writing a Count block", len(ps), nCount)))
+}
+
+// c08LoopExit: the block loop of the sketch decoder reads a flag only after it has established that input is left,
+// and reports success only after it has established that none is left — `for len(*b) > 0`. A loop that stops one
+// byte early reports a stream with a trailing flag as success; one that goes on at length 0 turns every complete
+// stream into io.EOF.
+func c08LoopExit(c *Ctx, a *sketchAnchors) {
+	const rule = "C08-D3"
+	f := c.blockLoop(a)
+	if f == nil {
+		c.R.undecided(rule, "block-loop/anchor", "", "", "the shared block loop resolves by role", "not found")
+		return
+	}
+	ps, _ := execPlain(c, f, nil, 1)
+	// evidence of one condition about the amount of input: +1 some left, −1 none left, 0 not about that
+	inputLeft := func(cd PathCond) int {
+		t := cd.Term
+		isLen := func(l *Term) bool {
+			l = stripConv(l)
+			return l.Op == "builtin" && l.Sym == "len" && len(l.Args) == 1
+		}
+		v := 0
+		switch {
+		case t.isBin("<") && t.Args[0].isConst("0") && isLen(t.Args[1]): // 0 < len
+			v = 1
+		case t.isBin("<=") && t.Args[0].isConst("1") && isLen(t.Args[1]): // 1 <= len
+			v = 1
+		case t.isBin("!=") && (t.Args[0].isConst("0") && isLen(t.Args[1]) || t.Args[1].isConst("0") && isLen(t.Args[0])):
+			v = 1
+		case t.isBin("==") && (t.Args[0].isConst("0") && isLen(t.Args[1]) || t.Args[1].isConst("0") && isLen(t.Args[0])):
+			v = -1
+		}
+		if !cd.Taken {
+			v = -v
+		}
+		return v
+	}
+	bad := ""
+	nSucc, nRead := 0, 0
+	for _, p := range ps {
+		// the first flag read on the path comes after "some input left"
+		firstRead := -1
+		for _, e := range p.Calls() {
+			if e.Call.Op == "call" && strings.HasSuffix(e.Call.Sym, "encoding.DecodeFlag") {
+				firstRead = e.Seq
+				break
+			}
+		}
+		if firstRead >= 0 {
+			nRead++
+			ok := false
+			for _, cd := range p.Conds {
+				if cd.Seq < firstRead && inputLeft(cd) == 1 {
+					ok = true
+				}
+			}
+			if !ok {
+				bad = "a flag is read without the evidence that input is left: [" + p.String() + "]"
+			}
+		}
+		if len(p.RetT) > 0 && p.RetNil(len(p.RetT)-1) == 1 {
+			nSucc++
+			last := 0
+			for _, cd := range p.Conds {
+				if v := inputLeft(cd); v != 0 {
+					last = v
+				}
+			}
+			if last != -1 {
+				bad = "success is returned without the evidence that no input is left: [" + p.String() + "]"
+			}
+		}
+	}
+	c.R.check(bad == "" && nSucc > 0 && nRead > 0, rule, shortFn(f)+"/loop-runs-while-input-is-left", shortFn(f), c.fpos(f), "flags are read only while len(*b) > 0; success only at len(*b) == 0", firstNonEmpty(bad, fmt.Sprintf("%d success path(s), %d reading path(s)", nSucc, nRead)))
 }
